@@ -68,7 +68,7 @@ class Gen:
         r = self.rng
         once = 1 if r.random() < (0.45 if self.focus in ("C04",) else 0.25) else 0
         asy = 1 if r.random() < 0.25 else 0
-        seq = 1 if r.random() < 0.2 else 0
+        seq = 1 if r.random() < (0.7 if self.focus == "C07" else 0.2) else 0
         hid = r.randrange(12) if r.random() < 0.5 else r.choice([0, 1, 6, 7])
         body = r.randrange(self.nbodies)
         if seq and not asy:
@@ -90,7 +90,7 @@ class Gen:
         r = self.rng
         x = r.random()
         if x < 0.12:
-            return "panic %d" % r.randrange(1, 9) if r.random() < (0.9 if self.focus == "C05" else 0.5) else "count %d" % self.ty()
+            return "panic %d" % r.randrange(1, 9) if r.random() < (0.9 if self.focus in ("C05", "C07") else 0.5) else "count %d" % self.ty()
         if x < 0.30 and not leaf:
             return self.pub(True)
         if x < 0.45:
@@ -180,6 +180,7 @@ PROJ = {
     "C01": ("enter", "exit", "filt", "has", "count", "unsub"),
     "C04": ("enter", "count", "filt"),
     "C05": ("enter", "exit", "panich", "count"),
+    "C07": ("enter", "exit"),
     "C08": ("enter", "exit", "hook"),
     "C09": ("append", "log", "enter"),
     "C13": ("append", "perr", "log", "enter", "exit"),
@@ -213,6 +214,8 @@ def nontrivial(prop, lines, impl):
         return any(" 1 " in l[8:] for l in lines if l.startswith("sub")) and any(l.startswith("pub") and l.endswith("dead") for l in lines) and len(enters) >= 1
     if prop == "C05":
         return any(l.startswith("panich") for l in impl) or (any("panic" in l for l in lines) and len(enters) >= 2)
+    if prop == "C07":
+        return any(l.startswith("sub") and l.split()[5] == "1" for l in lines) and len(enters) >= 2
     if prop == "C08":
         return any(l.startswith("hook") for l in impl) and len(enters) >= 1 and any("cancel" in l or "dead" in l for l in lines)
     if prop == "C09":
